@@ -154,6 +154,16 @@ def publicise_fields(text):
     return text
 
 
+def publicise_item(text):
+    """D12: item visibility becomes `pub` (visibility only)"""
+    m = re.match(r'\s*pub\s*\(\s*(crate|super)\s*\)', text)
+    if m:
+        return text[:m.start()] + 'pub' + text[m.end():]
+    if re.match(r'\s*pub\b', text):
+        return text
+    return 'pub ' + text
+
+
 def extract_item(rel, kind, name):
     src = load_repo(rel)
     depth = src.depth_map()
@@ -269,6 +279,23 @@ class FnWeaver:
                     nl = s.text[start:end].count('\n')
                     self.edits.append((start, end, [(repl + '\n' * nl, 'repo', self.rel, self.line_at(start))]))
                     self.rules.add('D1')
+
+    # -- D12 on the fn itself
+    def publicise(self):
+        m = re.match(r'\s*pub\s*\(\s*(crate|super)\s*\)', self.text)
+        if m:
+            self.edits.append((m.start(), m.end(), [('pub', 'repo', self.rel, self.first_line)]))
+            self.rules.add('D12')
+        elif not re.match(r'\s*pub\b', self.text):
+            self.edits.append((0, 0, [('pub ', 'repo', self.rel, self.first_line)]))
+            self.rules.add('D12')
+
+    # -- stub: keep the real signature, replace the body (callee known by contract only)
+    def stub_body(self):
+        p = self.parts
+        a = self.src.toks[p['body_open']][2]
+        b = self.src.toks[p['body_close']][1]
+        self.edits.append((a, b, [(' unimplemented!() ', 'repo', self.rel, self.line_at(a))]))
 
     # -- D9
     def rename_underscore_params(self):
@@ -507,7 +534,7 @@ def weave(unit_path):
     trel = os.path.relpath(unit_path, VERIF)
     out = Out()
     info = dict(functions=[], items=[], rules=set(), lost=[], props=[], hashes={}, unit=os.path.basename(unit_path)[:-3],
-                title='', includes=[])
+                title='', includes=[], stubs=[])
     i = 0
     n = len(tlines)
     while i < n:
@@ -543,11 +570,15 @@ def weave(unit_path):
                 if st2 != stripped:
                     info['rules'].add('D12')
                 stripped = st2
+            st2 = publicise_item(stripped)
+            if st2 != stripped:
+                info['rules'].add('D12')
+            stripped = st2
             # keep line structure: stripped text keeps the newlines of non-removed parts only; map by first line
             out.emit(stripped + '\n', 'repo', rel, first_line)
             info['items'].append(dict(kind=kind, file=rel, name=name, line=first_line))
             i += 1
-        elif d == 'fn':
+        elif d in ('fn', 'stub'):
             parts = arg.split()
             rel, qual = parts[0], parts[1]
             opts = dict(p.split('=', 1) for p in parts[2:])
@@ -555,9 +586,13 @@ def weave(unit_path):
             text, first_line = locate_fn(rel, tname or None, fname, opts.get('trait'))
             info['hashes']['fn %s %s' % (rel, qual)] = hashlib.sha256(text.encode()).hexdigest()
             fw = FnWeaver(text, rel, first_line, qual, trel)
-            fw.drop_logs()
+            fw.publicise()
+            if d == 'stub':
+                fw.stub_body()
+            else:
+                fw.drop_logs()
+                fw.deref_for_patterns()
             fw.rename_underscore_params()
-            fw.deref_for_patterns()
             attrs = []
             safety = list(info['props'])
             i += 1
@@ -589,6 +624,15 @@ def weave(unit_path):
                 elif sd == 'spec':
                     fw.add_spec(blk, blk_line)
                     has_spec = True
+                elif sd == 'specfile':
+                    sp = os.path.join(VERIF, sarg)
+                    with open(sp) as sf:
+                        sl = sf.read().rstrip('\n').split('\n')
+                    fw.tmpl_file, keep = sarg, fw.tmpl_file
+                    fw.add_spec(sl, 1)
+                    fw.tmpl_file = keep
+                    has_spec = True
+                    info['includes'].append(sarg)
                 elif sd == 'entry':
                     fw.add_entry(blk, blk_line)
                 elif sd == 'loop':
@@ -607,12 +651,17 @@ def weave(unit_path):
                     raise WeaveError('%s:%d: unknown sub-directive %s' % (trel, i + 1, sd))
                 i = j
             start_line = len(out.lines) + 1
+            if d == 'stub':
+                attrs = ['#[verifier::external_body]'] + attrs
             fw.render(out, attrs)
             end_line = len(out.lines)
             info['rules'] |= fw.rules
             info['lost'] += fw.lost
-            info['functions'].append(dict(qual=qual, file=rel, line=first_line, out_start=start_line, out_end=end_line,
-                                          safety=safety, contracted=has_spec, lost=list(fw.lost)))
+            if d == 'stub':
+                info['stubs'].append(dict(qual=qual, file=rel, line=first_line))
+            else:
+                info['functions'].append(dict(qual=qual, file=rel, line=first_line, out_start=start_line, out_end=end_line,
+                                              safety=safety, contracted=has_spec, lost=list(fw.lost)))
         else:
             raise WeaveError('%s:%d: unknown directive %s' % (trel, i + 1, d))
     text = out.finish()
